@@ -22,8 +22,10 @@ As-is descriptions (not gaps):
                      verified against the file content at that moment, even if the file changes between loads.
 * `C35_trailer_never_panics` (headline, bears on C14): with the repaired guard the trailer decoding
                      never slices out of range; `C35_fails_asis_chklen_guard` is the as-is negation.
-NOT PROVED (named, covered by the correspondence run only): `C35_seek_rev` (descending seek =
-entries `≤ target`, last first) and "reopen = decode ∘ encode of the table image" (the byte
+* `C35_seek_rev`     descending `Seek` + `Next…` = the entries `≤ target`, last first.
+* `C35_cursor`       one long-lived iterator, every call sequence (Rewind / Seek / Next in any order,
+                     Seek after exhaustion included): the remaining iteration equals the spec cursor.
+NOT PROVED (named, covered by the correspondence run only): "reopen = decode ∘ encode of the table image" (the byte
 layout of blocks/index/checksums is not modelled).
 -/
 import NoKVModel.Sst.Lemmas
@@ -118,6 +120,113 @@ theorem C35_seek_fwd_partial (c : SstCfg) (hc : c.GoodButSeek) (hash : Bytes →
   · exact Or.inl h
   · exact Or.inr ⟨h2, h3⟩
 
+/-- Descending seek: the iteration after `Seek(target)` on a reverse iterator is exactly the
+entries at or before the target, last first. -/
+theorem C35_seek_rev (c : SstCfg) (hc : c.GoodButSeek) (hash : Bytes → Nat) (blockSize : Nat) (bloomOn : Bool)
+    (bpk k : Nat) (es : List SEntry) (hs : SortedE es) (target : Bytes) :
+    seekRev c target (buildTable c hash blockSize bloomOn bpk k es).blocks =
+      (es.takeWhile (fun e => !klt target e.1)).reverse := by
+  have hfl := buildBlocks_flatten c blockSize es
+  have := seekRev_spec c hc target (buildBlocks c blockSize es) (buildBlocks_nonempty c blockSize es)
+    (by rw [hfl]; exact hs)
+  rw [hfl] at this
+  simpa [buildTable] using this
+
+/-! ### one long-lived iterator: every call sequence -/
+
+/-- the configuration in which the cursor theorem holds: lookup/seek decisions as intended, the
+forward fall-through present, and `seekHelper` always reloading the block -/
+def CursorGood (c : SstCfg) : Prop := c.Good ∧ c.seekReloads = true
+instance decCursorGood (c : SstCfg) : Decidable (CursorGood c) := by unfold CursorGood; exact inferInstance
+
+theorem curStep_spec (c : SstCfg) (hc : CursorGood c) (blocks : List Block) (es : List SEntry)
+    (hfl : blocks.flatten = es) (hne : ∀ b ∈ blocks, b ≠ []) (hs : SortedE es) (asc : Bool)
+    (cur : Cur) (op : COp) (hd : cur.dead = false) :
+    (curStep c blocks asc cur op).rem = specStep es asc cur.rem op ∧ (curStep c blocks asc cur op).dead = false := by
+  obtain ⟨⟨hg, hnb⟩, hsr⟩ := hc
+  cases op with
+  | rewind => cases asc <;> simp [curStep, specStep, hfl]
+  | next =>
+    simp only [curStep, specStep]
+    cases hrem : cur.rem with
+    | nil => simp [hrem, hd]
+    | cons x r => cases r <;> simp
+  | seek key =>
+    simp only [curStep, hsr, if_true, specStep]
+    cases asc with
+    | true =>
+      simp only [if_true]
+      refine ⟨?_, trivial⟩
+      rcases seekFwd_spec c hg key blocks hne (by rw [hfl]; exact hs) with h | ⟨h1, _, _⟩
+      · rw [h, hfl]
+      · rw [hnb] at h1; cases h1
+    | false =>
+      simp only [Bool.false_eq_true, if_false]
+      have hrev := seekRev_spec c hg key blocks hne (by rw [hfl]; exact hs)
+      rw [hfl] at hrev
+      cases blocks with
+      | nil => simp at hfl; subst hfl; simp
+      | cons b rest =>
+        simp only
+        by_cases hcond : c.tblSeekOp.eval (klt (baseKey b) key) (keq (baseKey b) key) = true
+        · simp only [hcond, if_true]
+          refine ⟨?_, hd⟩
+          rw [← hrev]; simp [seekRev, hcond]
+        · simp only [hcond, Bool.false_eq_true, if_false]
+          exact ⟨hrev, trivial⟩
+
+theorem curRun_spec (c : SstCfg) (hc : CursorGood c) (blocks : List Block) (es : List SEntry)
+    (hfl : blocks.flatten = es) (hne : ∀ b ∈ blocks, b ≠ []) (hs : SortedE es) (asc : Bool) :
+    ∀ (ops : List COp) (cur : Cur), cur.dead = false →
+      (ops.foldl (curStep c blocks asc) cur).rem = ops.foldl (specStep es asc) cur.rem ∧
+      (ops.foldl (curStep c blocks asc) cur).dead = false := by
+  intro ops
+  induction ops with
+  | nil => intro cur hd; exact ⟨rfl, hd⟩
+  | cons op ops ih =>
+    intro cur hd
+    obtain ⟨h1, h2⟩ := curStep_spec c hc blocks es hfl hne hs asc cur op hd
+    simp only [List.foldl_cons]
+    rw [← h1]
+    exact ih _ h2
+
+/-- **Cursor theorem.**  For one long-lived table iterator (either direction) over a table built
+from any sorted entry list with any block size, and for EVERY sequence of calls — `Rewind`,
+`Seek(k)` for arbitrary `k` (stored keys, keys in the current block, in the block just left, in
+the gap between two blocks, before the first / after the last entry), `Next` on a valid
+iterator, in any order, including `Seek` after the iterator ran off either end — the entries from
+the current position on are exactly those of the specification cursor over the stored entries
+(forward: `dropWhile (< k)`; reverse: the entries `≤ k`, last first; `Next` = drop the current
+one), and no call panics.  In particular `Valid()` and the current entry agree after every call.
+Invariant: the model state is a suffix (prefix, reversed) of the flattened entries — i.e. a
+(block index, in-block position) pair — and each call re-establishes it (`curStep_spec`: one case
+per call, on top of `seekFwd_spec` / `seekRev_spec`). -/
+theorem C35_cursor (c : SstCfg) (hc : CursorGood c) (hash : Bytes → Nat) (blockSize : Nat) (bloomOn : Bool)
+    (bpk k : Nat) (es : List SEntry) (hs : SortedE es) (asc : Bool) (ops : List COp) :
+    (curRun c (buildTable c hash blockSize bloomOn bpk k es).blocks asc ops).rem = specRun es asc ops ∧
+    (curRun c (buildTable c hash blockSize bloomOn bpk k es).blocks asc ops).dead = false := by
+  have hfl := buildBlocks_flatten c blockSize es
+  have hne := buildBlocks_nonempty c blockSize es
+  have := curRun_spec c hc (buildBlocks c blockSize es) es hfl hne hs asc ops {} rfl
+  simpa [curRun, specRun, buildTable] using this
+
+/-- the shape of seed C35-m2r3: `seekHelper` re-uses the block the block iterator names and `Next`
+drops both views on leaving a block -/
+def ReuseShape (c : SstCfg) : Prop := c = { SstCfg.good with seekReloads := false, nextUnloadsBoth := true }
+instance decReuseShape (c : SstCfg) : Decidable (ReuseShape c) := by unfold ReuseShape; exact inferInstance
+
+/-- with the reuse shortcut: scan a two-block table to the end, then `Seek` to the key stored in
+the last block — the iterator reports end-of-table although the entry exists -/
+theorem C35_fails_seek_reuse_after_exhaustion (c : SstCfg) (hc : ReuseShape c) :
+    let es : List SEntry := [(mkKey IdxCfg.good [97] 5, [1]), (mkKey IdxCfg.good [97] 3, [2])]
+    let t := buildTable c (fun _ => 0) 32 false 0 1 es
+    let ops := [COp.rewind, COp.next, COp.next, COp.seek (mkKey IdxCfg.good [97] 3)]
+    t.blocks.length = 2 ∧ (curRun c t.blocks true ops).rem = [] ∧
+    specRun es true ops = [(mkKey IdxCfg.good [97] 3, [2])] := by
+  unfold ReuseShape at hc
+  subst hc
+  decide
+
 /-- the as-is configuration of the open finding -/
 def AsIsSeek (c : SstCfg) : Prop := c.GoodButSeek ∧ c.seekFallsThrough = false
 instance decAsIsSeek (c : SstCfg) : Decidable (AsIsSeek c) := by unfold AsIsSeek; exact inferInstance
@@ -133,11 +242,11 @@ theorem C35_fails_asis_seek_block_gap (c : SstCfg) (hc : AsIsSeek c) :
     seekFwd c (mkKey IdxCfg.good [97] 4) t.blocks = [] ∧
     es.dropWhile (fun e => klt e.1 (mkKey IdxCfg.good [97] 4)) = [(mkKey IdxCfg.good [97] 3, [2])] ∧
     search c (fun _ => 0) t (mkKey IdxCfg.good [97] 4) = none := by
-  obtain ⟨so, nb, ts, bf, br, sv, bp, vc, cg, ve⟩ := c
+  obtain ⟨so, nb, ts, bf, br, sv, bp, vc, cg, ve, sr, nu⟩ := c
   obtain ⟨⟨h1, h2, h3, h4, h5, h6⟩, h7⟩ := hc
   simp only at h1 h2 h3 h4 h5 h6 h7
   subst h1 h2 h3 h4 h5 h6 h7
-  cases vc <;> cases cg <;> cases ve <;> decide
+  cases vc <;> cases cg <;> cases ve <;> cases sr <;> cases nu <;> decide
 
 /-! ### a block that fails its checksum is never served (shared with C14: SST data blocks) -/
 
